@@ -216,6 +216,8 @@ define(void)
 
 	m = xmalloc(sizeof(*m));
 	m->name = tokencheck(&tok, TIDENT, "after #define");
+	if (strcmp(m->name, "__VA_ARGS__") == 0)  /* 6.10.3p5 */
+		error(&tok.loc, "__VA_ARGS__ cannot be defined as a macro");
 	m->hide = false;
 	t = arrayadd(&repl, sizeof(*t));
 	scan(t);
@@ -237,6 +239,13 @@ define(void)
 				p->flags |= PARAMVAR;
 			} else {
 				p->name = tokencheck(&tok, TIDENT, "of macro parameter name or '...'");
+				if (strcmp(p->name, "__VA_ARGS__") == 0)  /* 6.10.3p5 */
+					error(&tok.loc, "__VA_ARGS__ cannot be a macro parameter name");
+				/* 6.10.3p6 */
+				for (i = 0; i < params.len / sizeof(*p) - 1; ++i) {
+					if (strcmp(((struct macroparam *)params.val)[i].name, p->name) == 0)
+						error(&tok.loc, "duplicate macro parameter '%s'", p->name);
+				}
 			}
 		}
 		scan(t);  /* first token in replacement list */
